@@ -35,6 +35,7 @@ TABLE = [
     (re.compile(r'^std::option::Option::<T>::or_else$'), 'opt', 'or_else'),
     (re.compile(r'^std::iter::Iterator::try_for_each$|as std::iter::Iterator>::try_for_each$'), 'iter', 'try_for_each'),
     (re.compile(r'^std::iter::Iterator::for_each$|as std::iter::Iterator>::for_each$'), 'iter', 'for_each'),
+    (re.compile(r'^std::iter::Iterator::fold$|as std::iter::Iterator>::fold$'), 'iter', 'fold'),
 ]
 
 
@@ -125,10 +126,10 @@ def desugar_body(prog, body):
         for rx, recv, tmpl in TABLE:
             if rx.search(name):
                 fns = [_callable(prog, body, a) for a in t['args'][1:]]
-                need = {'map_or_else': 2, 'map_or': 2}.get(tmpl, 1)
+                need = {'map_or_else': 2, 'map_or': 2, 'fold': 2}.get(tmpl, 1)
                 if len(t['args']) != 1 + need:
                     break
-                if tmpl == 'map_or':
+                if tmpl in ('map_or', 'fold'):
                     if fns[1] is None:
                         break
                 elif any(f is None for f in fns):
@@ -232,7 +233,16 @@ def desugar_body(prog, body):
                          'resolved_args': [], 'resolved_local': False, 'args': [recv_op], 'arg_tys': ['&mut ' + self_ty], 'dest': {'l': o, 'p': []},
                          'target': test, 'unwind': None, 'span': t['span'], 'fn_span': t.get('fn_span', t['span'])}
             nj['blocks'][head] = {'stmts': pre, 'term': next_term, 'cleanup': False}
-            if tmpl == 'try_for_each':
+            if tmpl == 'fold':
+                # acc = init; loop { match it.next() { None => break acc, Some(x) => acc = f(acc, x) } }
+                acc = B.local((ga + ['?', '?'])[1])
+                stmts.append(B.assign(acc, {'rv': 'use', 'op': t['args'][1]}))
+                done = B.block([B.assign(D, {'rv': 'use', 'op': {'k': 'move', 'place': {'l': acc, 'p': []}}})], B.goto(T))
+                nacc = B.local((ga + ['?', '?'])[1])
+                back = B.block([B.assign(acc, {'rv': 'use', 'op': {'k': 'move', 'place': {'l': nacc, 'p': []}}})], B.goto(head))
+                bodyb = B.block()
+                pre2, term2 = B.call(prog, fns[1], [{'k': 'copy', 'place': {'l': acc, 'p': []}}, {'k': 'move', 'place': {'l': x, 'p': []}}], nacc, back, t)
+            elif tmpl == 'try_for_each':
                 unit = {'k': 'const', 'ty': '()', 'val': None, 's': '()'}
                 done = B.block([B.assign(D, B.agg(RES, 'Ok', 0, [unit]))], B.goto(T))
                 r_ = B.local((ga + ['?', '?', '?'])[2])
@@ -250,7 +260,7 @@ def desugar_body(prog, body):
             nj['blocks'][bodyb] = {'stmts': [B.assign(x, {'rv': 'use', 'op': B.payload(o, 'Some', 1, elem_ty, OPT)})] + pre2, 'term': term2, 'cleanup': False}
             nj['blocks'][test] = {'stmts': [B.assign(d, {'rv': 'discr', 'place': {'l': o, 'p': []}, 'ty': 'std::option::Option<%s>' % elem_ty})],
                                   'term': B.switch(d, [0, 1], [done, bodyb], B.block()), 'cleanup': False}
-            if (ga + ['?', '?', '?'])[2].startswith(RES) or tmpl == 'for_each':
+            if (ga + ['?', '?', '?'])[2].startswith(RES) or tmpl in ('for_each', 'fold'):
                 nj['blocks'][bi] = {'stmts': stmts, 'term': B.goto(head), 'cleanup': blk['cleanup']}
             else:
                 # try_for_each with a residual type other than Result: leave the call alone (the appended blocks stay unreachable)
